@@ -562,7 +562,8 @@ fn find_fn<'a>(file: &'a syn::File, container: &str, name: &str) -> R<FnRef<'a>>
                     let g = norm_tokens(t.generics.params.to_token_stream());
                     key = format!("trait {} < {} >", t.ident, g);
                 }
-                if key == want {
+                // a trait may also be named without its generic parameters (defaults make the full key unwieldy)
+                if key == want || format!("trait {}", t.ident) == want {
                     for ti in &t.items {
                         if let syn::TraitItem::Fn(f) = ti {
                             if f.sig.ident == name {
